@@ -1,6 +1,9 @@
 import Gbo.Driver.Check
 open Gbo Gbo.Proto Gbo.Check
 
+def abs' (q : Rat) : Rat := if q < 0 then -q else q
+def allRingsOf (m : MPoly) : List Ring := m.flatMap (fun p => p.ext :: p.holes)
+
 def stripNl (s : String) : String := (s.dropEndWhile (fun c => c == '\n' || c == '\r')).toString
 
 def exactResult (c : CaseSt) (k : Nat) : Option MPoly :=
@@ -59,6 +62,19 @@ partial def loop (hin hout : IO.FS.Stream) (c : CaseSt) : IO Unit := do
       let reqS := " ".intercalate req
       let ans := Run.answer reqS c.resolve
       hout.putStrLn s!"MODEL {k} {ans}"
+      -- a run that does not end normally is classified: does the model under exact arithmetic return
+      -- normally on the same operands, and do the operands contain an (almost) incidence?
+      if req.head? == some "BOOL" && !ans.startsWith "OK" && !ans.startsWith "SKIP" then
+        let toks := (reqS.splitOn " ").filter (· ≠ "") |>.toArray
+        match Run.parseBool c.resolve { toks := toks, pos := 1 } with
+        | some (rq, _) =>
+          let ex := match Run.runBoolReq { rq with cfg := { rq.cfg with budget := 20000 } } Arith.exact with
+            | .ok _ => "ok"
+            | .error _ => "fail"
+          let mag : Rat := ((allRingsOf rq.a ++ allRingsOf rq.b).flatMap (fun r => r.map (fun p => max (abs' p.x) (abs' p.y)))).foldl max 1
+          let deg := hasIncidence rq.a rq.b (mag / 1000000)
+          hout.putStrLn s!"CLASS {k} exactmodel={ex} degenerate={showBool deg}"
+        | none => pure ()
       let c := match k.toNat?, req.head? with
         | some kn, some "BOOL" =>
           let toks := (reqS.splitOn " ").filter (· ≠ "") |>.toArray
